@@ -99,10 +99,10 @@ CHECKS = {
         assumptions=[],
     ),
     "C07": dict(
-        packs=["c07"], level="other",
+        packs=["c07", "degree_c07"], level="other",
         explanation="R07.1 per-field effect summaries of the 12 Transform impls from MIR def-use (with mutation through &mut tracked): translate and translate_mut shift exactly the same fields, those are the position-carrying fields of the confirmed anchor table, every other field is copied unchanged, translate_mut returns self. "
-                    "R07.3 every function that reads Polyline::vertices applies (itself or in all its direct callers) the extra Polyline::translate field.",
-        claim="Decides the clause 'translate_mut has the same effect as translate' and that exactly the anchors move; that rasterisation itself is translation-equivariant (join arithmetic on absolute coordinates) is not decided.",
+                    "R07.3 the polyline consumers apply the extra Polyline::translate offset. R07.2 translation-degree abstract interpretation (positions degree 1, sizes/differences 0, doubled centres 2) of 36 query functions of the primitives (center, center_2x, bounding_box, contains, offset, styled_bounding_box, …) with callees inlined: no truncating division, |.|, variable scaling or mixed-degree comparison touches a position-dependent value and results have the degree of their role, hence these queries commute with translation for all inputs.",
+        claim="Decides 'translate_mut has the same effect as translate', that exactly the anchors move, and translation-equivariance of bounding boxes / contains / centres of the listed primitives (and of the whole Rectangle API in C16); equivariance of rasterisation through the thick-join arithmetic and triangle area products is outside the domain (listed exclusions).",
         note="Necessary conditions. Known deviation of the pristine tree outside this rule's reach: thick miter joins round a position-dependent numerator (IntersectionParams::intersection), see DESIGN.md section 7.",
         technique="per-field effect summaries from MIR def-use with &mut mutation tracking, compared between sibling methods and with an anchor table",
         trusted_base=TB,
@@ -179,5 +179,15 @@ CHECKS = {
         technique="crate-graph and whole-program path scan, audited panic-site inventory, monomorphic reachability, dominance guards, interval abstract interpretation",
         trusted_base=TB,
         assumptions=["usize is 64 bit on the analysis host", "display-scale contracts: coordinates within +-4096 after offsets, sizes <= 2560, stroke widths <= 128"],
+    ),
+    "C16": dict(
+        packs=["c16", "degree_c16"], level="other",
+        explanation="R16.1 the two public definitions of Rectangle::contains and Rectangle::offset (core inherent vs. embedded-graphics trait impl) have identical decision structures; R16.3 no library logic compares whole Point/Size values with the derived lexicographic order; R16.4 component_min/component_max are component-wise and intersection/envelope build top-left/bottom-right from max/min resp. min/max; "
+                    "R16.5 translation-degree analysis of the Rectangle API: positions have degree 1, sizes and differences degree 0, no truncating division or variable scaling is applied to a position-dependent value and comparisons relate values of equal degree.",
+        claim="Decides agreement of duplicate definitions, absence of lexicographic point logic, the min/max roles of the corner arithmetic and translation-equivariance (hence rounding independent of position) of the Rectangle operations; set-theoretic exactness of the interval case analysis is not decided.",
+        note="Necessary conditions.",
+        technique="sibling-implementation agreement (decision signatures), typed call-site lint, translation-degree abstract domain over MIR",
+        trusted_base=TB,
+        assumptions=[],
     ),
 }
